@@ -70,7 +70,7 @@ def run(tier, only=None):
     t0 = time.time()
     problems, mutable, decls, accesses = ir_audit(te.wd)
     n = te.tb["instr_rows"] + 8
-    units = [("c18.build", ["-DMODE_BUILD"])]
+    units = [("c18.build", ["-DMODE_BUILD"]), ("c18.observe", ["-DMODE_OBSERVE"])]
     letters = "mvps" if tier == "quick" else string.ascii_lowercase
     # every letter that starts a mnemonic or a format is cheap; quick still does all of them for the lookup part
     letters = string.ascii_lowercase
@@ -81,8 +81,10 @@ def run(tier, only=None):
         units = [u for u in units if fnmatch.fnmatch(u[0], only)]
 
     def job(u):
+        obs = u[0] == "c18.observe"
         return te.unit(u[0], "shared_c18.c", defs=u[1], unwind=n, checks="default", timeout=1500,
-                       unwindset={"strcmp.0": 20, "strcasecmp.0": 12, "strcpy.0": 20})
+                       unwindset={"strcmp.0": 20, "strcasecmp.0": 12, "strcpy.0": 20},
+                       isr="vf_isr" if obs else None, native_extra=("-pthread",) if obs else ())
     res = core.pmap(job, units)
     rep.add(res)
     audit = {"name": "c18.ir_audit", "text": "LLVM IR census and atomic-access audit", "status": "held" if not problems else "violated",
